@@ -1537,3 +1537,35 @@ fn vcli__to_outbound_send(item: DatagramPacket, verif_arg2: SocketAddr) -> Bytes
 fn vcli__to_inbound_recv(item: BytesMut, recipient: &Address, sender: SocketAddr) -> (DatagramPacket, SocketAddr) {
         ((item, recipient.clone()), sender)
     }
+
+//@@ octo-squirrel/src/protocol/vmess/header.rs:68-75  impl From for SecurityType#0  sha=6733604020742d4a
+impl From<CipherKind> for SecurityType {
+    fn from(value: CipherKind) -> Self {
+        match value {
+            CipherKind::ChaCha20Poly1305 => SecurityType::Chacha20Poly1305,
+            _ => SecurityType::Aes128Gcm,
+        }
+    }
+}
+
+//@@ octo-squirrel/src/protocol/vmess/header.rs:100-115  impl RequestHeader {fn default}  sha=d9bf9e47b7a445ec
+impl RequestHeader {
+
+    fn default(command: RequestCommand, security: SecurityType, address: Address, uuid: &str) -> Result<Self, uuid::Error> {
+        Ok(Self {
+            version: vmessp__VERSION,
+            command,
+            option: vec![RequestOption::ChunkStream, RequestOption::ChunkMasking, RequestOption::GlobalPadding, RequestOption::AuthenticatedLength],
+            security,
+            address,
+            id: vid__from_password(uuid)?,
+        })
+    }
+}
+
+//@@ octo-squirrel-client/src/client/vmess.rs:141-145  mod tcp / fn new_codec  sha=5357595b43c65602
+fn vtcp__new_codec(addr: &Address, verif_arg2: (CipherKind, String)) -> anyhow::Result<ClientAEADCodec> { let (kind, password) = verif_arg2;
+        let security = if kind == CipherKind::ChaCha20Poly1305 { SecurityType::Chacha20Poly1305 } else { SecurityType::Aes128Gcm };
+        let header = RequestHeader::default(RequestCommand::TCP, security, addr.clone(), &password)?;
+        Ok(ClientAEADCodec::new(header))
+    }
